@@ -85,6 +85,16 @@ Wp(e) ==
      /\ e.aw = Prod(w, e.lits) /\ e.one = 1 /\ e.zero = 0
      /\ UNCHANGED g
 
+Max(S) == CHOOSE x \in S : \A y \in S : x >= y
+(* Cnf::from_string: each written integer x is the literal of label |x|, positive iff x > 0 (ZeroIsNegative: as coded "0" reads as the
+   negative literal of label 0); the clause sets are those of the text (Cnf::new sorts and removes repeated literals) *)
+CnfText(e) ==
+  LET want(c) == {<<IF c[k] < 0 THEN 0 - c[k] ELSE c[k], IF c[k] > 0 THEN 1 ELSE 0>> : k \in 1 .. Len(c)}
+      got(c) == {<<c[k][1], c[k][2]>> : k \in 1 .. Len(c)}
+  IN /\ NoPanic(e) /\ Len(e.parsed) = Len(e.in)
+     /\ \A i \in 1 .. Len(e.in) : got(e.parsed[i]) = want(e.in[i]) /\ Len(e.parsed[i]) = Cardinality(want(e.in[i]))
+     /\ e.nv = 1 + Max({x[1] : x \in UNION {want(e.in[i]) : i \in 1 .. Len(e.in)}})
+     /\ UNCHANGED g
 EventOK(e) ==
   CASE e.ev = "hg_new" -> HgNew(e)
     [] e.ev = "hg_cnf" -> HgCnf(e)
@@ -94,6 +104,7 @@ EventOK(e) ==
     [] e.ev = "bt" -> Bt(e)
     [] e.ev = "ordq" -> OrdQ(e)
     [] e.ev = "wp" -> Wp(e)
+    [] e.ev = "cnf_text" -> CnfText(e)
 
 Init == l = 2 /\ g = [verts |-> {}, edges |-> << >>]
 Step == l <= Len(Rec) /\ l' = l + 1 /\ EventOK(Rec[l])
